@@ -231,6 +231,11 @@ func (b *bigmachineExecutor) addInvocation(inv execInvocation) (bool, error) {
 		}
 		b.invocationDeps[inv.Index][result.invIndex] = true
 	}
+	// The invocation is now transported to workers: freeze its compilation
+	// environment so that they compile with the driver's view (e.g. of which
+	// shards are cached) rather than re-deciding it. The copy held by the
+	// tasks was taken by compile before (*Session).run froze its own.
+	inv.Env.Freeze()
 	b.invocations[inv.Index] = inv
 	return true, nil
 }
